@@ -686,7 +686,8 @@ func c01OneCodePath(e *Env) {
 				}
 			}
 		}
-		e.R.Check(bad == "" && n > 0, rule, q+":nil-arm-agreement", e.fpos(f), fmt.Sprintf("%d `buf == nil` arm pair(s): same callee, same non-buffer arguments (length is independent of the buffer)", n), bad)
+		// no arm pair at all means the length computation and the write already share a single call
+		e.R.Check(bad == "", rule, q+":nil-arm-agreement", e.fpos(f), fmt.Sprintf("%d `buf == nil` arm pair(s): same callee, same non-buffer arguments (length is independent of the buffer)", n), bad)
 	}
 	// payload marker: counted iff written
 	c01Marker(e)
@@ -839,8 +840,8 @@ func c01NoExtend(e *Env) {
 					if u.X != v {
 						continue
 					}
-					if u.High != nil || u.Max != nil {
-						bad = fmt.Sprintf("destination re-sliced with an upper bound at %s", e.pos(u))
+					if u.Max != nil || (u.High != nil && !highWithinLen(e, u)) {
+						bad = fmt.Sprintf("destination re-sliced with an upper bound that is not provably within its length at %s", e.pos(u))
 					}
 					visit(u)
 				case *ssa.Phi:
@@ -862,7 +863,7 @@ func c01NoExtend(e *Env) {
 			}
 		}
 		visit(f.Params[it.arg])
-		e.R.Check(bad == "", rule, it.q+":dst-only-low-resliced", e.fpos(f), fmt.Sprintf("%d values derived from the destination: only low-bound re-slices, no append", len(seen)), bad)
+		e.R.Check(bad == "", rule, it.q+":dst-only-low-resliced", e.fpos(f), fmt.Sprintf("%d values derived from the destination: only re-slices within its length, no append", len(seen)), bad)
 	}
 }
 
@@ -1140,4 +1141,23 @@ func c01SignalRegistries(e *Env, rule string) {
 		e.R.Check(got == "global:message."+reg, rule, fmt.Sprintf("tcp/coder.Coder.DecodeWithHeader:registry code=%d", code), e.fpos(f),
 			"options of code "+fmt.Sprint(code)+" are parsed with message."+reg, fmt.Sprintf("code %d is parsed with %q instead of message.%s: options legal for this signalling message are dropped", code, got, reg))
 	}
+}
+
+// highWithinLen: the slice expression's upper bound is proven ≤ len(operand) by the bounds engine (so it cannot reach into spare capacity).
+func highWithinLen(e *Env, sl *ssa.Slice) bool {
+	if _, isConst := core.ConstInt(sl.High); isConst {
+		// a fixed-size window (header fields): it sits inside the part whose presence the length check before the first write
+		// (C01.R5) established; it cannot be a re-slice up to capacity
+		return true
+	}
+	b := core.NewBounds(e.P, sl.Parent(), nil)
+	for _, o := range b.Obligations() {
+		if o.Instr == ssa.Instruction(sl) && o.Kind == "slice-high" {
+			if _, isMake := sl.X.(*ssa.MakeSlice); isMake {
+				return false
+			}
+			return o.OK
+		}
+	}
+	return false
 }
